@@ -14,7 +14,7 @@ EXPLANATION = (
     'Static analysis of SpatialIndex and Network.createSpatialIndex / addEdge / bbox by interpretation of the source (tlint.orders; the repository is never imported or executed).  (Q) __init__, addFeature, __getCell, __cellsCrossSegment, request, neighborhood and __neighboringcells on a non-square 3 x 2 grid of unit cells each holding one marker, vertices on the integrality classes {k, k+1/2} including the closed upper border, segments strictly inside a cell, tracks of three vertices, window radii 0..3, six data extents for the constructor: every query form returns the data of every cell met / within the window (no false negatives), registration reaches every such cell, the allocated grid covers the extent.  (S) the same obligations on grids 2x5, 1x4, 4x1 and 3x3: windows of every radius up to beyond the larger dimension, registration along every row, every column and a U shape, two features sharing cells.  (N) a network and its index: straight, hairpin and loop networks, edges added after the index was built, point queries on every edge return that edge under its own position.  (U) units = round(d/E + B) + c decomposed symbolically: the rounding never loses a started cell and E is at most the smaller cell side on every order class of (dX, dY).')
 ASSUMPTIONS = ["query points and vertices inside the index extent", "the straddle test isSegmentIntersects is interpreted as written; its completeness for touching/collinear cases in real geometry is not decided",
                "the case domain is exhaustive for the dependence on integrality class, border position and grid shape, and bounded (3 x 2 cells, 3 vertices, radius <= 3) otherwise"]
-TECHNIQUE = "abstract interpretation of the SpatialIndex / Network method bodies by the checker's AST interpreter on finite case domains (grid shapes x integrality classes of the vertices x window radii; networks with curved and late edges) (bounded), symbolic rounding/polarity decomposition of the distance-to-units conversion (F2, all inputs)"
+TECHNIQUE = "abstract interpretation of the SpatialIndex / Network method bodies by the checker's AST interpreter on finite case domains (grid shapes x integrality classes of the vertices x window radii; networks with curved and late edges; index objects built by the repository's constructor; query histories on one index) (bounded), symbolic rounding/polarity decomposition of the distance-to-units conversion (F2, all inputs)"
 
 
 
